@@ -108,6 +108,10 @@ func c16Tree(dir string, symlinks bool, g int) error {
 			hx.TNode{Path: "sub/deep/l-er", Kind: "symlink", Target: "../../er"},
 			hx.TNode{Path: "er/l-more", Kind: "symlink", Target: "../more"},
 			hx.TNode{Path: "more/l-f", Kind: "symlink", Target: "../a.txt"})
+		if g%3 == 0 {
+			// ... and a directory symlink that leads back to the tree itself: a cycle when directories are followed
+			nodes = append(nodes, hx.TNode{Path: "sub/back-to-top", Kind: "symlink", Target: ".."})
+		}
 	}
 	return hx.WriteTree(dir, nodes)
 }
@@ -160,7 +164,8 @@ func c16Once(st *c16State, op c16Op, g, i int, mode string) string {
 	defer func() { recover() }()
 	res := func(v any, err error) string {
 		if err != nil {
-			return "error"
+			// the text of the error belongs to the result (paths made comparable between the runs)
+			return "error: " + strings.ReplaceAll(err.Error(), st.dir, "<dir>")
 		}
 		b, _ := json.Marshal(v)
 		return string(b)
